@@ -239,7 +239,8 @@ def request(c, text):
     ov = {}
     if c["before"] is not None:
         ov["before_time"] = c["before"]
-    return {"conf": {"toml": J.make_toml(price=price, rcomm=rcomm), "pricedb": text}, "overlaps": ov,
+    smin, smax = J.scale_for(text + str(c.get("journal") or c.get("text") or ""))
+    return {"conf": {"toml": J.make_toml(price=price, rcomm=rcomm, smin=smin, smax=smax), "pricedb": text}, "overlaps": ov,
             "inputs": [{"text": c["journal"]}],
             "ops": [{"op": "txns"}, {"op": "register"}, {"op": "balance"}, {"op": "pricectx"}, {"op": "pricedb"}]}
 
